@@ -26,6 +26,9 @@ Definition decode (code : Z) (a : list Z) (rows : list (list Z)) : option op :=
   | 8, [d; kind; nc] => Some (FromArrays d kind nc rows)
   | 9, [d; kind] => Some (TryFromRows d kind rows)
   | 10, [d] => Some (FromIter d rows)
+  (* rows given as iterators that report the exact size_hint (h, Some h) whatever they yield (h < 0: (0, None)):
+     size hints are advisory, the outcome is that of from_iter *)
+  | 13, [d; _] => Some (FromIter d rows)
   | 11, [d; arm; x; y] => Some (MacroOp d arm x y rows)
   | 12, [d] => Some (DefaultM d)
   | 20, [s] => Some (GetOrder s)
